@@ -55,6 +55,11 @@ def gen_requests(rng, tier):
             rs += [['RPopSize', rt, v, kind] for kind in ('dirac', 'beta') for v in (neg(), pos())]
         for rt in MROUTES:
             rs += [['RMigrationRate', rt, v] for v in (neg(), 0.0, pos())]
+        # the invalid value at a change point the lineages never reach (time 400), through a whole model and on the object alone
+        for rt in ('MNestedDict', 'MMigrationRateChange', 'MMigrationRateChanges', 'MSymmetric', 'MDiscreteRateChanges'):
+            rs += [['RMigrationRate', rt, v, how] for how in ('late', 'late_object') for v in (neg(), pos())]
+        for rt in ('SNestedDict', 'SPopSizeChange', 'SPopSizeChanges', 'SDiscreteRateChanges'):
+            rs += [['RPopSize', rt, v, 'late'] for v in (neg(), 0.0, pos())]
         rs += [['RBetaAlpha', a] for a in (0.5, 0.999, 2.001, 3.0, 1.5, 1.25, 1.0)]
         rs += [['RDiracPsi', p] for p in (0.0, 1.0, -0.5, 1.5, 0.5, 0.25)]
         rs += [['RRewardCount', k, m] for k, m in [(1, 2), (2, 1), (2, 3), (1, 1), (2, 2), (3, 3)]]
